@@ -107,7 +107,7 @@ def main():
     else:
         for d in sorted(glob.glob(os.path.join(ROOT, "seeded", "*"))):
             name = os.path.basename(d)
-            if pats and not any(p in name for p in pats):
+            if not os.path.isdir(d) or (pats and not any(p in name for p in pats)):
                 continue
             mp = os.path.join(d, "meta.json")
             meta = json.load(open(mp))
